@@ -1118,4 +1118,67 @@ theorem predRT_of_normal (p : Str) (hn : normalizePred p = p) (hne : p ≠ []) :
   cases hs : isSurface p with
   | true => exact predRT_surface p hn hs
   | false => exact predRT_gpred p hn hne hs
+/-! ### re-encoding at tree / dictionary level -/
+
+def SpanOrNone (l : Lnk) : Prop := l = .unspec ∨ ∃ a b, l = .charspan a b
+
+theorem jLnk_view (l : Lnk) (h : SpanOrNone l) :
+    (viewLnkJ l).truthy = l.truthy ∧ (l.truthy = true → jLnk (viewLnkJ l) = jLnk l) := by
+  rcases h with h | ⟨a, b, h⟩
+  · subst h; simp [viewLnkJ, Lnk.truthy]
+  · subst h
+    cases ht : (Lnk.charspan a b).truthy
+    · have hv : viewLnkJ (.charspan a b) = .unspec := by simp [viewLnkJ, ht]
+      rw [hv]
+      exact ⟨rfl, by simp⟩
+    · have hv : viewLnkJ (.charspan a b) = .charspan a b := by simp [viewLnkJ, ht, Lnk.cfrom, Lnk.cto]
+      rw [hv]
+      exact ⟨ht, fun _ => rfl⟩
+
+theorem nodeToDict_view (o : Opts) (n : Node) (h : SpanOrNone n.lnk) :
+    nodeToDict o (viewNodeJ o n) = nodeToDict o n := by
+  obtain ⟨h1, h2⟩ := jLnk_view n.lnk h
+  obtain ⟨op, ol⟩ := o
+  cases op <;> cases ol <;> cases ht : n.lnk.truthy <;>
+    simp [nodeToDict, viewNodeJ, Node.sortinfo, h1, ht, h2]
+
+theorem toDict_view (o : Opts) (d : DMRS) (hn : ∀ n ∈ d.nodes, SpanOrNone n.lnk) (hg : SpanOrNone d.lnk) :
+    toDict o (viewJ o d) = toDict o d := by
+  obtain ⟨h1, h2⟩ := jLnk_view d.lnk hg
+  have hnodes : (d.nodes.map (viewNodeJ o)).map (nodeToDict o) = d.nodes.map (nodeToDict o) := by
+    rw [List.map_map]
+    apply List.map_congr_left
+    intro n hnm
+    exact nodeToDict_view o n (hn n hnm)
+  obtain ⟨op, ol⟩ := o
+  cases ol <;> cases ht : d.lnk.truthy <;> cases hi : d.index <;>
+    simp [toDict, viewJ, hnodes, h1, ht, h2, hi] <;>
+    (split <;> simp_all)
+
+theorem encNodeX_view (o : Opts) (n : Node) : encNodeX o (viewNodeX o n) = encNodeX o n := by
+  unfold encNodeX
+  have hp : (viewNodeX o n).pred = n.pred := rfl
+  rw [hp]
+  cases encPredX n.pred with
+  | error e => rfl
+  | ok pe =>
+    obtain ⟨op, ol⟩ := o
+    cases op <;> cases ol <;> simp only [viewNodeX, Node.sortinfo, Lnk.cfrom, Lnk.cto, if_true] <;> rfl
+
+theorem mapMExcept_congr {α β : Type} (f g : α → Except Err β) (xs : List α) (h : ∀ x ∈ xs, f x = g x) :
+    mapMExcept f xs = mapMExcept g xs := by
+  induction xs with
+  | nil => rfl
+  | cons x xs ih => simp [mapMExcept, h x (by simp), ih (fun y hy => h y (by simp [hy]))]
+
+theorem toXml_view (o : Opts) (d : DMRS) : toXml o (viewX o d) = toXml o d := by
+  have hnodes : mapMExcept (encNodeX o) (d.nodes.map (viewNodeX o)) = mapMExcept (encNodeX o) d.nodes := by
+    have : ∀ (xs : List Node), mapMExcept (encNodeX o) (xs.map (viewNodeX o)) = mapMExcept (encNodeX o) xs := by
+      intro xs
+      induction xs with
+      | nil => rfl
+      | cons x xs ih => simp [mapMExcept, encNodeX_view, ih]
+    exact this d.nodes
+  obtain ⟨op, ol⟩ := o
+  cases ol <;> simp [toXml, viewX, hnodes, Lnk.cfrom, Lnk.cto]
 end Verif.C02
